@@ -221,14 +221,15 @@ def reserved_names(ctx):
 
 def binary_input(ctx):
     sm, res = ctx.sm, ctx.res
-    res.rule('R-ENC.input', "the input file is handed to ElementTree in binary mode (or by path), so that the XML declaration decides the encoding")
+    res.rule('R-ENC.input', "the input file is handed to ElementTree undecoded (binary mode, or by path), so that the XML declaration of the document decides the "
+             "encoding: a text-mode file, with whatever fixed encoding, fails or garbles every valid document in another encoding (UTF-16, ISO-8859-1)")
     pm = _parser_funcs(ctx)[2]
     opens = [c for c in ast.walk(pm.node) if isinstance(c, ast.Call) and dotted(c.func) == 'open']
     for c in opens:
         mode = c.args[1] if len(c.args) > 1 else get_kw(c, 'mode')
         m = const_value(mode) if mode is not None else 'r'
         enc = get_kw(c, 'encoding')
-        res.check(isinstance(m, str) and ('b' in m or enc is not None), 'R-ENC.input', pm.fq, f"`{short(c)}` is binary or names its encoding", key='R-ENC.input|open',
-                  line=c.lineno)
+        res.check(isinstance(m, str) and 'b' in m and enc is None, 'R-ENC.input', pm.fq, f"`{short(c)}` opens the document in binary mode",
+                  fail_detail="text mode: the bytes are decoded before the XML parser sees the encoding declaration", key='R-ENC.input|open', line=c.lineno)
     parses = [c for c in ast.walk(pm.node) if isinstance(c, ast.Call) and dotted(c.func) in ('ET.parse', 'ET.fromstring', 'ET.XML')]
     res.check(bool(parses), 'R-ENC.input', pm.fq, "the document is parsed by ElementTree", key='R-ENC.input|parse')
